@@ -30,6 +30,7 @@ type Obligation struct {
 	Status  string // discharged / failed / undecided
 	Res     SolveResult
 	QuerySz int
+	Cross   string
 }
 
 type Config struct {
@@ -67,6 +68,9 @@ type Exec struct {
 	effCache  map[*ssa.Function]*Effects
 	autoCands []*autoCand
 	atomicSteps []atomicStep
+	inputs    []*Term
+	curEffFn  *ssa.Function
+	freshRefs map[int]bool
 }
 
 type deferEntry struct {
@@ -100,7 +104,7 @@ func NewExec(ld *Loaded, cfg *Config) *Exec {
 	x := &Exec{ld: ld, tb: NewTB(), cfg: cfg,
 		leafCache: map[string][]LeafInfo{}, classSort: map[string]*Sort{}, refAx: map[int]bool{},
 		originID: map[string]int{}, typeIDs: map[string]int{}, oblCount: map[string]int{}, notes: map[string]int{},
-		assumed: map[string]bool{}, strConst: map[string]*Term{}, fnInfos: map[*ssa.Function]*fnInfo{}, effCache: map[*ssa.Function]*Effects{}}
+		assumed: map[string]bool{}, strConst: map[string]*Term{}, fnInfos: map[*ssa.Function]*fnInfo{}, effCache: map[*ssa.Function]*Effects{}, freshRefs: map[int]bool{}}
 	return x
 }
 
@@ -159,7 +163,7 @@ func (x *Exec) addObl(fr *Frame, st *State, kind string, instr ssa.Instruction, 
 	if fr != nil && fr.spec {
 		return
 	}
-	if st.reach.IsFalse() || goal.IsTrue() {
+	if st.reach.IsFalse() {
 		return
 	}
 	text, pos := "", ""
@@ -177,6 +181,10 @@ func (x *Exec) addObl(fr *Frame, st *State, kind string, instr ssa.Instruction, 
 	n := x.oblCount[base]
 	x.oblCount[base] = n + 1
 	o := &Obligation{Name: fmt.Sprintf("%s@%d", base, n), Kind: kind, Func: x.unitName(), Anchor: text, Hyp: st.reach, Goal: goal, Pos: pos, Props: x.curProps}
+	if goal.IsTrue() {
+		o.Status = "discharged"
+		o.Res = SolveResult{Status: "unsat", Solver: "simplifier"}
+	}
 	x.obls = append(x.obls, o)
 }
 
@@ -190,6 +198,9 @@ func (x *Exec) unitName() string {
 func (x *Exec) oblNil(fr *Frame, st *State, ref *Term, instr ssa.Instruction) {
 	if strings.HasPrefix(ref.Op, "uf:in_") || strings.HasPrefix(ref.Op, "uf:el_") || strings.HasPrefix(ref.Op, "uf:fa_") {
 		return // constructed refs are non-nil by axiom
+	}
+	if x.freshRefs[ref.ID] {
+		return
 	}
 	x.addObl(fr, st, "nil", instr, "", x.nonNil(ref))
 }
@@ -469,6 +480,10 @@ func (x *Exec) valEq(a, b Val) *Term {
 	case *types.Interface:
 		// equal tags and payloads (payload identity for boxed values is an under-approximation of ==,
 		// adequate for comparisons with nil and with sentinel errors)
+		z := tb.BVInt(0, 64)
+		if (a.L[0] == z && a.L[1] == z) || (b.L[0] == z && b.L[1] == z) {
+			return tb.Eq(a.L[0], b.L[0]) // nil-ness is decided by the dynamic type tag
+		}
 		return tb.And(tb.Eq(a.L[0], b.L[0]), tb.Eq(a.L[1], b.L[1]))
 	}
 	if bt, ok := a.T.Underlying().(*types.Basic); ok && bt.Info()&types.IsString != 0 {
@@ -620,6 +635,7 @@ func (x *Exec) freshRef(st *State, hint string) *Term {
 	al := x.heapGet(st, "g:alloc", x.tb.Array(bv64, x.tb.Bool))
 	x.assume(st, x.tb.And(x.nonNil(r), x.tb.Not(x.tb.Select(al, r)), x.tb.Eq(x.tb.UF("origin", bv64, r), x.tb.BVInt(0, 64))))
 	x.heapSet(st, "g:alloc", x.tb.Store(al, r, x.tb.True))
+	x.freshRefs[r.ID] = true
 	return r
 }
 
@@ -779,6 +795,11 @@ func (x *Exec) typeAssert(fr *Frame, st *State, i *ssa.TypeAssert) Val {
 		ls := x.leaves(at)
 		if len(ls) == 1 && ls[0].Sort == tb.BV(64) && ls[0].Kind == LRef {
 			res = Val{T: at, L: []*Term{tb.Ite(ok, v.L[1], tb.BVInt(0, 64))}}
+			if _, isPtr := at.Underlying().(*types.Pointer); isPtr {
+				// standing assumption: interfaces never hold typed-nil pointers
+				x.assume(st, tb.Implies(ok, x.nonNil(v.L[1])))
+				x.assumed["interfaces never hold typed-nil pointers (type assertions to pointer types yield non-nil)"] = true
+			}
 		} else if len(ls) == 0 {
 			res = Val{T: at}
 		} else {
